@@ -1,7 +1,7 @@
 """C13 -- density clustering produces a well-formed forest that partitions the samples."""
 from hypothesis import strategies as st
 
-from ..common import knncase, lib
+from ..common import gen, knncase, lib
 from ..common.lib import libcall
 from ..common.outcome import Outcome, require
 
@@ -33,8 +33,17 @@ def near_tied_case(draw, nlo, nhi):
     js = draw(st.sampled_from([0.0001220703125, 0.0001220703125, 0.0009765625, 0.00006103515625]))
     X = [[b + j_ * js for b, j_ in zip(p_, q_)] for p_, q_ in zip(base, jit)]
     k = draw(st.sampled_from([2, 2, 3]))
+    metric = draw(st.sampled_from(["euclidean", "squared_euclidean", "log_squared_euclidean"]))
+    if draw(st.integers(0, 2)) == 0:
+        # the same regime for the KNN-supervised model: few classes (long same-class chains), validation rows appended
+        Y = draw(gen.labels(nt, 1, 2))
+        K = max(Y) + 1
+        nv = draw(st.integers(K, K + 3))
+        Xv = draw(st.lists(st.lists(st.integers(0, side - 1).map(float), min_size=dim, max_size=dim), min_size=nv, max_size=nv))
+        return {"model": "knn", "mode": "feat", "nt": nt, "nq": 0, "nv": nv, "max_k": k, "Y": Y, "Yv": draw(gen.labels(nv, K, K)), "X": X + Xv,
+                "metric": metric, "pkind": "near_tied_lattice"}
     return {"model": "unsup", "mode": "feat", "nt": nt, "nq": 0, "nv": 0, "max_k": k, "min_k": k, "Y": None, "X": X,
-            "metric": draw(st.sampled_from(["euclidean", "squared_euclidean", "log_squared_euclidean"])), "pkind": "near_tied_lattice"}
+            "metric": metric, "pkind": "near_tied_lattice"}
 
 
 def strategy(tier):
